@@ -990,7 +990,10 @@ class NNDescent:
 
     def __setstate__(self, d):
         self.__dict__ = d
-        self._set_distance_func()
+        if not self._is_sparse:
+            # sparse indexes keep the (pickled) sparse distance function and
+            # correction selected at construction time
+            self._set_distance_func()
         self._search_forest = tuple(
             [renumbaify_tree(tree) for tree in d["_search_forest"]]
         )
